@@ -202,6 +202,9 @@ OpsEqNe == {"eq", "ne"}
 (* a function that copies its parameter with one more field; the field is selected from the result *)
 CopyE(sel, flds) == [e |-> "copy", sel |-> sel, flds |-> flds]
 CallE(fn, args) == [e |-> "call", fn |-> fn, args |-> args]
+(* an outer binding named like the parameter of a function that has been called with another type: it is used AFTER the call *)
+PreShadowUse == << LetS(n_f, FuncE(<< n_x >>, S(n_x))), LetS(n_x, L(StrV(<< "b" >>))), LetS(n_r, Bin("add", CallE(n_f, << L(IntV(1)) >>), L(IntV(1)))) >>     \* f(1) + 1: the sum types what f returned
+LitsSA == << StrV(<< "a" >>), IntV(1) >>
 PreCopyFn == << LetS(n_f, FuncE(<< n_t >>, CopyE(n_t, << F(n_b, L(IntV(2))) >>))),
                 LetS(n_r, CallE(n_f, << TupE(<< F(n_a, L(IntV(1))) >>) >>)) >>
 FamSelUse == {"lit", "var", "bin", "dot", "let"}
